@@ -6,7 +6,8 @@ import storefamx
 import vlib
 
 PID = "C15"
-FILES = ["theories/Properties/C15.v", "theories/Examples/C15Examples.v", "theories/Examples/C15Paging.v"]
+FILES = ["theories/Properties/C15.v", "theories/Examples/C15Examples.v", "theories/Examples/C15Paging.v",
+         "theories/Examples/C15Wirings.v"]
 
 
 def families(sch):
@@ -184,13 +185,116 @@ def qp_oracle(sch, fam, ents, child, fv, cfv, other):
     return out
 
 
+DW_STATS = dict(delete_where_ops=0, committed=0, judged=0, through_parent=0, through_plain_child=0, through_extended_child=0,
+                plain_child_and_plain_parents_match_too=0, filter_true=0, nothing_matched=0)
+
+
+def cascades_back(sch, r):
+    """can a delete of an entity of root store r reach, through cascade-delete constraints, ANOTHER entity of r?"""
+    edges = {}
+    for t in sch.order:
+        for c in sch.stores[t]["cons"]:
+            if c[0] == "CA" and c[3] == "D":
+                edges.setdefault(sch.root(t), set()).add(sch.root(c[1]))
+    seen, todo = set(), list(edges.get(r, ()))
+    while todo:
+        x = todo.pop()
+        if x not in seen:
+            seen.add(x)
+            todo.extend(edges.get(x, ()))
+    return r in seen
+
+
+def dw_oracle(sch, fam, ops, committed, prev, cur):
+    """DeleteWhere(filter) through a store of a family deletes exactly the entities THAT STORE'S query shows for the filter:
+    through the parent every parent entity satisfying it, through a plain child store only the entities WITH child data
+    satisfying it (a plain parent entity that satisfies the filter too stays, with all its fields), through an extended child
+    store every parent entity satisfying it - and of each of them both parts (no entity, child data, field or set remains).
+    Judged on the implementation's facts before (prev) and after (cur) a committed transaction in which the DeleteWhere is
+    the only operation on its family (creates / updates of other root stores may surround it).  -> list of (key, description)"""
+    out = []
+    pents, pchild, pfv, pcfv, _ = prev
+    ents, child, fv, cfv, sets, cur_facts = cur
+    for j, op in enumerate(ops):
+        if op["kind"] != "DW":
+            continue
+        s0 = op["store"]
+        r = sch.root(s0)
+        if r not in fam:
+            continue
+        DW_STATS["delete_where_ops"] += 1
+        if not committed:
+            continue
+        DW_STATS["committed"] += 1
+        others = [o for k, o in enumerate(ops) if k != j]
+        if any(o["kind"] not in ("C", "UP") or sch.root(o["store"]) == r for o in others):
+            continue
+        DW_STATS["judged"] += 1
+        kind = "parent" if s0 == r else ("extended" if sch.stores[s0]["ext"] else "plain")
+        DW_STATS["through_parent" if kind == "parent" else "through_%s_child" % kind] += 1
+        own = set(f for f, _ in sch.stores[s0]["fields"]) if kind != "parent" else set()
+        all_ids = sorted(pents.get(r, ()), key=unhex)
+        if op["field"] is None:
+            match = lambda i: True
+            DW_STATS["filter_true"] += 1
+            ftxt = "true"
+        else:
+            f, want_raw = op["field"], "s" + op["val"]
+            match = lambda i: (pcfv.get((r, i, s0, f), "absent") if f in own else pfv.get((r, i, f), "absent")) == want_raw
+            ftxt = "%s = 0x%s" % (f, op["val"])
+        shown = [i for i in all_ids if kind != "plain" or (r, i, s0) in pchild]
+        want = [i for i in shown if match(i)]
+        parents_matching = [i for i in all_ids if match(i)]
+        if kind == "plain" and len(parents_matching) > len(want):
+            DW_STATS["plain_child_and_plain_parents_match_too"] += 1
+        if not want:
+            DW_STATS["nothing_matched"] += 1
+        key = "C15:delete-where-through-parent" if kind == "parent" else "C15:delete-where-through-child-" + kind
+        what = "DeleteWhere(%s) through %s store %s" % (ftxt, kind if kind == "parent" else kind + " child", s0)
+        # (1) every entity the store's query shows for the filter is gone, both parts
+        left = []
+        for i in want:
+            rest = [x for x in cur_facts if x.split(":")[0] in ("E", "C", "CF", "F", "S") and x.split(":")[1] == r and x.split(":")[2] == i]
+            if rest:
+                left.append((i, rest[:3]))
+        if left:
+            out.append((key, "%s reported success; the store's query showed %s for that filter, but of %s there remain %s"
+                        % (what, want, [i for i, _ in left], left[0][1])))
+        # (2) nothing else is deleted or changed (unless a cascade can come back to the family)
+        if not cascades_back(sch, r):
+            wrong = []
+            for i in all_ids:
+                if i in want:
+                    continue
+                if i not in ents.get(r, ()):
+                    wrong.append("%s deleted" % i)
+                    continue
+                for c in fam[r]:
+                    if ((r, i, c) in pchild) != ((r, i, c) in child):
+                        wrong.append("%s: data of child store %s %s" % (i, c, "lost" if (r, i, c) in pchild else "appeared"))
+                for (rr, ii, f), v in pfv.items():
+                    if rr == r and ii == i and fv.get((rr, ii, f), "absent") != v:
+                        wrong.append("%s: field %s %s -> %s" % (i, f, v, fv.get((rr, ii, f), "absent")))
+            if wrong:
+                why = ""
+                gone = [i for i in all_ids if i not in want and i not in ents.get(r, ())]
+                if kind == "plain" and gone and all(match(i) and (r, i, s0) not in pchild for i in gone):
+                    why = (" - %s satisfy the filter but have NO data of %s (the store's own query does not show them): the filter was "
+                           "evaluated over the parent's entities" % (gone, s0))
+                out.append((key, "%s: the store's query shows %s for that filter (parent entities: %s, with data of %s: %s), but "
+                            "afterwards: %s%s" % (what, want, all_ids, s0,
+                                                  [i for i in all_ids if (r, i, s0) in pchild] if kind != "parent" else "-",
+                                                  "; ".join(wrong[:4]), why)))
+    return out
+
+
 def oracle(sch, txs, io, mo):
     compare.sch = sch
     out = []
     fam = families(sch)
     prev_view = view([])
     for k, (t, a) in enumerate(zip(txs, io)):
-        _, _, _, ops = storefamx.parse_ops(t)
+        tsys, _, _, ops = storefamx.parse_ops(t)
         ents, child, fv, cfv, sets = view(a["facts"])
         rd, lf = storefamx.reads(a)
         if "panic" in a["results"]:
@@ -229,6 +333,31 @@ def oracle(sch, txs, io, mo):
             out.append((key, desc, k))
         if out:
             break
+        # ---- the parent's constraints apply identically to an entity created through a child store: a create that reports
+        # success although the entity carries no value for a field under a non-nullable unique index / fk index / fk constraint
+        # of the parent store, or the system flag in an ordinary context under the parent's system-entity constraint (the
+        # rules do not depend on the state: the same create through the parent store is refused)
+        for j, op in enumerate(ops):
+            if op["kind"] != "C" or j >= len(a["results"]) or a["results"][j] != "ok":
+                continue
+            s0 = op["store"]
+            r = sch.root(s0)
+            if r not in fam:
+                continue
+            why = []
+            for cns in sch.stores[r]["cons"]:
+                if cns[0] in ("U", "FI", "FC") and not cns[-1] and op["fv"].get(cns[1], "N") in ("N", "-"):
+                    why.append("%s.%s (non-nullable %s) is %s" % (r, cns[1], dict(U="unique index", FI="fk index", FC="fk constraint")[cns[0]],
+                                                                 "nil" if op["fv"].get(cns[1], "N") == "N" else "empty"))
+                elif cns[0] == "SY" and op["sys"] and not tsys:
+                    why.append("system entity in an ordinary context under the system-entity constraint of %s" % r)
+            if why:
+                out.append(("C15:parent-constraint-not-applied" + ("-through-child" if s0 != r else ""),
+                            "Create of %s through %s store %s reported success although %s"
+                            % (op["id"], "child" if s0 != r else "parent", s0, "; ".join(why)), k))
+        # ---- DeleteWhere through a store of the family deletes exactly what that store's query shows for the filter
+        for key, desc in dw_oracle(sch, fam, ops, a["commit"], prev_view, (ents, child, fv, cfv, sets, a["facts"])):
+            out.append((key, desc, k))
         if a["commit"]:
             # ---- parent (and child) indexes mirror the entities, child entities included
             probs = storefam.index_oracle(sch, [f for f in a["facts"] if f.split(":")[0] in ("E", "F", "CF", "C", "S", "U", "X", "XK")
@@ -241,8 +370,10 @@ def oracle(sch, txs, io, mo):
             fkp = [x for x in storefam.fk_oracle(sch, a["facts"]) if x.split(" ")[1].split(".")[0] in famstores]
             if fkp:
                 out.append(("C15:parent-fk-index", "after the committed transaction [%s]: %s" % (
-                    ", ".join("%s %s %s" % (dict(C="Create", UP="Update", D="DeleteById").get(o["kind"], o["kind"]), o.get("store", ""),
-                                            o.get("id", "")) for o in ops), "; ".join(fkp[:3])), k))
+                    ", ".join("%s %s %s" % (dict(C="Create", UP="Update", D="DeleteById", DW="DeleteWhere").get(o["kind"], o["kind"]),
+                                            o.get("store", ""), o.get("id", "") if o["kind"] != "DW" else
+                                            ("true" if o["field"] is None else "%s = 0x%s" % (o["field"], o["val"])))
+                              for o in ops), "; ".join(fkp[:3])), k))
             pents, pchild = prev_view[0], prev_view[1]
             for j, op in enumerate(ops):
                 if op["kind"] not in ("C", "UP", "D"):
@@ -253,7 +384,7 @@ def oracle(sch, txs, io, mo):
                     continue
                 i = op["id"]
                 later = ops[j + 1:]
-                touched = any(o.get("id") == i and sch.root(o.get("store", r)) == r for o in later) or any(o["kind"] == "D" for o in later)
+                touched = any(o.get("id") == i and sch.root(o.get("store", r)) == r for o in later) or any(o["kind"] in ("D", "DW") for o in later)
                 is_child_store = sch.stores[s0]["parent"] is not None
                 if op["kind"] == "C" and is_child_store and not touched:
                     if i not in ents.get(r, ()) or (r, i, s0) not in child:
@@ -285,7 +416,7 @@ def oracle(sch, txs, io, mo):
                                             % ("create" if op["kind"] == "C" else "update", i, s0, sf, sorted(got), sorted(want)), k))
                     # a patch (update with a field checker) leaves every shared field / set / child field it does NOT name as it
                     # was stored before the transaction - whichever store it entered through or was delegated to
-                    if op["kind"] == "UP" and chk is not None and not any(o["kind"] in ("D", "AL", "RL") for o in ops) \
+                    if op["kind"] == "UP" and chk is not None and not any(o["kind"] in ("D", "DW", "AL", "RL") for o in ops) \
                             and not any(o.get("id") == i and o is not op and sch.root(o.get("store", r)) == r for o in ops) \
                             and i in pents.get(r, ()):
                         pfv, pcfv, psets = prev_view[2], prev_view[3], prev_view[4]
@@ -362,7 +493,9 @@ def main(argv):
         c, "c15", 1500, 20000, compare, oracle,
         "adaptive seeded histories (2-9 transactions x 1-3 ops) over a parent with a plain child store (idx: emp+mgr, parent carries unique, "
         "nullable unique, set, fk indexes and links; the child its own unique index) and a parent with an extended child store (casc: b+bx under "
-        "cascade-delete fk indexes): create / full and field-checker update / delete through EITHER store over mixed populations of plain-parent "
+        "cascade-delete fk indexes), plus C15np / C15nx (store_c15w3.go): parents with unique / set / fk indexes whose plain / extended child store "
+        "declares nothing but fields: create / full and field-checker update / DeleteById / DeleteWhere (filter true or <field> = <value an existing "
+        "entity holds>, mostly one plain parents satisfy too) through EITHER store over mixed populations of plain-parent "
         "and child entities. After every transaction the bolt file is traversed and every store is read through QueryIds (unsorted and sorted), "
         "IterateIds, IterateValidIds, FindById and LoadById (field values), and through ~25 paged / sorted / counted queries per family store "
         "(QP tokens, c15_paging.go: QueryIds with a non-id sort asc/desc on parent and child fields x limit 1, 2, N-1 / skip 1, id-order QueryIds "
@@ -372,10 +505,12 @@ def main(argv):
         "both; plain child reads = ids with child data, extended child reads = all parent ids (IterateValidIds: only those with extension data); "
         "totals and pages of the paged queries count / contain only the entities the store shows, pages hold min(limit, total - skip) rows; the "
         "child sees the parent's fields; shared fields, child fields and the parent's indexes reflect an update through either store; a patch "
-        "leaves unnamed fields as stored; a delete through either store leaves no part; parent unique / set / fk indexes mirror child "
-        "entities. Non-trivial: mixed population and a committed update/delete of an entity with child data.",
+        "leaves unnamed fields as stored; a delete through either store leaves no part; DeleteWhere through a store deletes exactly the entities "
+        "that store's query shows for the filter (both parts) and nothing else; a create the parent's constraints refuse is refused through the "
+        "child store too; parent unique / set / fk indexes mirror child entities. Non-trivial: mixed population and a committed update/delete of an entity with child data.",
         nontrivial=nontrivial)
     c.cov["paged_queries"] = dict(QP_STATS)
+    c.cov["delete_where"] = dict(DW_STATS)
     if not proof_ok:
         c.violation(PID + ":proof", "proof obligation no longer checks: %s" % json.dumps(c.proof_broken)[:600],
                     dict(broken=c.proof_broken), no_input=True)
